@@ -40,15 +40,15 @@ CLAIMED = {
         "Coq proof (list induction) + exhaustive small-scope correspondence evaluated in Coq",
         "DESIGN.md 4/C18"),
     "C04": (
-        "15 Coq theorems (coq/Properties/C04.v) about the single left-to-right sweep of support_iter, for every "
+        "17 Coq theorems (coq/Properties/C04.v) about the single left-to-right sweep of support_iter, for every "
         "well-formed timeline (what C01 proves every Timeline iterates), every collar and every precision eps >= 0: "
         "outputs strictly sorted and separated by more than max(eps, collar-1) (so exactly the gaps that are empty at "
         "the precision or strictly shorter than the collar are bridged), bounds are original bounds, every original "
         "lies in exactly one output, nothing is lost and anything gained lies in a bridged gap, idempotence; at "
         "eps = 0, collar = 0: the support is THE canonical decomposition (uniqueness proved), absorbs covered "
-        "segments, and duration() equals the number of covered unit cells.",
+        "segments, and duration() equals the number of covered unit cells; for every eps, measure <= duration() <= measure + eps per member.",
         "Trusted: Coq kernel + vm_compute; model of support_iter/support/duration in coq/Model/Timeline.v; harness. "
-        "Measure statements are exact at eps = 0; for eps > 0 the structural theorems hold and the K4/K1 "
+        "Measure equality is exact at eps = 0; for eps > 0 the structural theorems and the two-sided measure bound hold and the K4/K1 "
         "correspondence compares exactly.",
         "Coq proof (custom induction principle over the sweep, canonical-form uniqueness) + exhaustive small-scope correspondence",
         "DESIGN.md 4/C04"),
@@ -63,20 +63,24 @@ CLAIMED = {
         "Coq proof (list induction, filter algebra) + exhaustive small-scope correspondence",
         "DESIGN.md 4/C05"),
     "C06": (
-        "9 Coq theorems (coq/Properties/C06.v), exact at eps = 0 in terms of covered unit cells: gaps(S) is canonical "
+        "16 Coq theorems (coq/Properties/C06.v). Exact at eps = 0 in terms of covered unit cells: gaps(S) is canonical "
         "and covers exactly S minus the timeline; crop(S) and gaps(S) partition S; gaps twice = support of crop; "
         "extrude in intersection mode covers exactly timeline minus R, loose keeps exactly the segments with no cell "
-        "in R, strict exactly those with some cell outside R; covers(other) iff every cell of other is covered.",
+        "in R, strict exactly those with some cell outside R; covers(other) iff every cell of other is covered. For every "
+        "precision eps >= 0 (the default microsecond included): every reported gap is longer than eps, inside the support and disjoint from "
+        "every piece of the merged crop; every time point of the support is annotated, in a reported gap, or in a sliver no longer "
+        "than eps (Segment and Timeline supports); covers(other) iff no reported gap intersects a member of other.",
         "Trusted: Coq kernel + vm_compute; model of gaps_iter/gaps/extrude/covers in coq/Model/Timeline.v; harness. "
-        "For eps > 0 (K4, K1 regimes) the tie compares implementation and model exactly but the cell-level theorems are "
-        "stated at eps = 0 only (DESIGN 2.2).",
+        "For eps > 0 extrude is tied exactly (K4, K1 regimes) and proved at eps = 0 only.",
         "Coq proof (canonical decompositions, cell-wise reasoning) + exhaustive small-scope correspondence",
         "DESIGN.md 4/C06"),
     "C10": (
-        "7 Coq theorems (coq/Properties/C10.v), exact at eps = 0: segmentation() covers exactly the covered cells, its "
+        "14 Coq theorems (coq/Properties/C10.v). Exact at eps = 0: segmentation() covers exactly the covered cells, its "
         "pieces are pairwise non-overlapping, bounded by original bounds with no original bound strictly inside, and "
         "every original segment is the union of the pieces it contains; Timeline.get_overlap() is the canonical "
-        "decomposition of the cells covered by two distinct segments.",
+        "decomposition of the cells covered by two distinct segments. For every precision eps >= 0: pieces longer than eps, bounded by "
+        "consecutive original bounds, inside the merged support, disjoint, covering each original up to stretches no longer than eps; "
+        "get_overlap sound (shared time or a bridged gap <= eps) and complete (every pairwise intersection longer than eps is reported).",
         "Trusted: Coq kernel + vm_compute; model of segmentation/get_overlap in coq/Model/Timeline.v; harness. "
         "Annotation.get_overlap is tied by the correspondence and its theorem is added with the annotation model.",
         "Coq proof (sorted distinct boundaries, canonical decompositions) + exhaustive small-scope correspondence",
